@@ -666,7 +666,7 @@ def default_any_maker(rng):
 def ber_any_maker(rng):
     """ANY values in arbitrary BER form (indefinite lengths, segmented strings) - for BER-only properties."""
     o = U.GenOpts(depth=2, allow_any=False, allow_real=False, big_strings=False, fanout=2,
-                  allow_default=False, big_tag_numbers=False)
+                  allow_default=False, big_tag_numbers=rng.random() < 0.4)
     T = U.gen_type(rng, o, depth=rng.choice([0, 1, 2]))
     v = U.gen_value(rng, T, o, small=True)
     if rng.random() < 0.3:
